@@ -1328,3 +1328,6 @@ mod testing {
         do_sync_signed_custom_auth_test(TlsImplementation::Nativetls, true)
     }
 }
+
+#[cfg(feature = "verif")]
+pub mod verif;
